@@ -349,7 +349,11 @@ class Gen:
                 nm = r.pick(sorted(self.names))
             else:
                 nm = "D%d" % len(self.names)
-                self.names[nm] = self.pat(min(depth - 1, 2))
+                saved = self.allow_names
+                self.allow_names = False          # definitions here do not refer to definitions
+                body = self.pat(min(depth - 1, 2))
+                self.allow_names = saved
+                self.names[nm] = body
             return ('name', nm, self.names[nm])
         return self.atom()
 
